@@ -1,6 +1,6 @@
 (* ApiCxx.v — correspondence entry points for C20.  Definitions only. *)
 From Coq Require Import ZArith List Bool.
-From Mpir Require Import Word RadixDefs PrintfDefs CxxDefs ApiBasic.
+From Mpir Require Import Word DivDefs RadixDefs PrintfDefs MpqDefs CxxDefs ApiBasic.
 Import ListNotations.
 Local Open Scope Z_scope.
 
@@ -67,3 +67,31 @@ Definition api_cxx_io : api := fun t =>
   let showbase := if bit 2 then (if bit 0 then 1 else 2) else 0 in
   let p := mkp base 42 just (-1) showbase (if bit 3 then 43 else 0) w false false in
   [TB (doprnt_integer p (mpz_get_str v base)); TZ v; TZ 0; TZ 5].
+
+(* ---- mpq_class trees: carrier = canonical fractions; a built-in is given as twice its value (so that the exact value of a
+   half-integral double is an integer); operators 0 + | 1 - | 2 * | 3 / | 10 << | 11 >>, unary 0 - | 2 abs ---- *)
+Definition q_of_half (h : Z) : mpq := match mpq_canonicalize (mkq h 2) with Ok q => q | DivByZero => mkq 0 1 end.
+Definition q_bin (op : Z) (x y : mpq) : mpq :=
+  if op =? 0 then mpq_add x y else if op =? 1 then mpq_sub x y else if op =? 2 then mpq_mul x y false
+  else match mpq_div x y with Ok q => q | DivByZero => x end.
+Definition q_binl (op : Z) (x : mpq) (h : Z) : mpq :=
+  if op =? 10 then mpq_mul_2exp x (h / 2) else if op =? 11 then mpq_div_2exp x (h / 2) else q_bin op x (q_of_half h).
+Definition q_binr (op : Z) (h : Z) (y : mpq) : mpq := q_bin op (q_of_half h) y.
+Definition q_un (op : Z) (x : mpq) : mpq := if op =? 0 then mpq_neg x else mpq_abs x.
+Definition builtin_half (l u xh k : Z) : Z :=
+  if k =? 0 then 2 * l else if k =? 1 then 2 * u else if k =? 2 then xh
+  else 2 * nth (Z.to_nat (k - 3)) [0; 1; 2; 8; -4; 3; 16; 0; -1; 64] 0.
+(* cxxq tree dest An Ad Bn Bd Cn Cd Dn Dd l u xh cop code... *)
+Definition api_cxxq : api := fun t =>
+  let dest := argz t 1 in
+  let env0 (v : nat) := mkq (argz t (2 + 2 * v)) (argz t (3 + 2 * v)) in
+  let blt := builtin_half (argz t 10) (argz t 11) (argz t 12) in
+  let cop := argz t 13 in
+  match parse_expr 4000 (toksz (skipn 14 t)) with
+  | Some (e, _) =>
+      let st : store mpq := fun q => match q with Named v => env0 v | Tmp _ => mkq 0 1 end in
+      let x := Z.to_nat (if dest =? 8 then 0 else dest mod 4) in
+      let st' := if (4 <=? dest) && (dest <? 8) then compound mpq q_un q_bin q_binl q_binr blt cop x e st else assign mpq q_un q_bin q_binl q_binr blt x e st in
+      flat_map (fun v => [TZ (qn (st' (Named v))); TZ (qd (st' (Named v)))]) [0; 1; 2; 3]%nat
+  | None => [TB [63]]
+  end.
